@@ -324,7 +324,9 @@ func (fs LocalFileSystem) Copy(ctx context.Context, src, dst string, options *Co
 		return false, err
 	}
 
-	if _, err := os.Stat(dstPath); err != nil {
+	// Lstat: a destination name that is taken by a symbolic link exists, also
+	// when the link dangles, and is replaced like any other destination
+	if _, err := os.Lstat(dstPath); err != nil {
 		if !os.IsNotExist(err) && !errors.Is(err, syscall.ENOTDIR) {
 			return false, errFromOS(err)
 		}
